@@ -91,6 +91,11 @@ var (
 )
 
 func aliasParseParams(aliasParams []string) (string, []string, error) {
+	if len(aliasParams) == 0 {
+		// only flags were given (`alias --copy`, `alias --`)
+		return "", nil, errInvalidSyntax
+	}
+
 	if !rxAlias.MatchString(aliasParams[0]) && len(aliasParams) >= 2 && len(aliasParams[1]) >= 1 && aliasParams[1][0] != '=' {
 		return "", nil, errInvalidSyntax
 	}
